@@ -59,8 +59,11 @@ def c17():
                         inst("VP_C17_Pipe", {"yield": 0, "reset": 0}, {"closer": [0, 1], "n": [2], "m": [1]}),
                         inst("VP_C17_Pipe", {"yield": 1, "reset": 0, "env:SOCKETACE_PIPE_DEBUG": 1}, {"closer": [0, 1], "n": [2], "m": [1]}),
                         inst("VP_C17_Pipe", {"yield": 1, "reset": 0}, {"closer": [0, 1], "n": [3], "m": [2]}, tiers=("thorough",))]}
-    return {"property": "C17", "groups": [g1],
-            "bounds": {"debug": "the same with SOCKETACE_PIPE_DEBUG=1 (PipeData's payload-dump variant of the copy loops)",
+    g2 = {"package": SERVER_PKG, "files": ["../C03/srv_env.go", "../C03/c03_routing.go", "c17_server.go"], "native_replay": False,
+          "init_allow": SERVER_INIT, "stubs": server_stubs(pipe=False),
+          "instances": [inst("VP_C17_LateAnswer", {}, {"late": [0, 1]}, expect_reach=["answer-delivered"])]}
+    return {"property": "C17", "groups": [g1, g2],
+            "bounds": {"late_answer": "one logical connection through the real AcceptConnection + muxHandler + PipeData on the server: the target answers and closes after time has passed (every deadline armed on the logical stream until then has expired; the stream stubs honour read and write deadlines) - the answer and the end-of-stream must reach the client's stream", "debug": "the same with SOCKETACE_PIPE_DEBUG=1 (PipeData's payload-dump variant of the copy loops)",
                        "pipes": "the real PipeData (the copy loops every logical connection runs through on client and server) between two in-memory connections with TCP-like semantics: the closing side writes 0-2 (3) chunks of 1-2 arbitrary bytes and closes, the other side writes 0-1 (2) chunks; pushes interleaved with the copy goroutines in every schedule",
                        "outside": "close handshakes of smux / websocket / DNS carriers themselves, MiB payloads, real timing; data travelling towards the closing side when it closes (not promised by the statement)"},
             "assumptions": [SCHED, "the caller closes both ends when PipeData returns (HandleConnection, multiplexToUpstream)", NO_REPLAY]}
